@@ -15,6 +15,7 @@ import (
 	"strings"
 	"sync/atomic"
 	"testing"
+	"time"
 )
 
 // closeAll = NSQD.Exit(); the answer lists the subscribed consumers whose connection it closed.
@@ -140,6 +141,91 @@ func vfE5UnpauseOnDisk(t *testing.T, dir string, names []string) {
 	}
 }
 
+// beforeShutdown makes sure most shutdowns find messages in flight (to live and to departed
+// consumers) and deferred.
+func (l *vfE5Life) beforeShutdown() {
+	for _, t := range l.topics() {
+		for _, c := range l.chans(t) {
+			if c.IsPaused() || c.Depth() == 0 || l.r.Intn(3) == 0 {
+				continue
+			}
+			l.doSub(t, c)
+			k := l.nextK
+			n := 0
+			for i, cnt := 0, 1+l.r.Intn(4); i < cnt && l.deliver(t, c, k); i++ {
+				n++
+			}
+			ids, owners := l.inflightOf(c)
+			for i, id := range ids {
+				if owners[i] != k {
+					continue
+				}
+				switch l.r.Intn(4) {
+				case 0: // deferred requeue: pending at shutdown
+					if c.RequeueMessage(k, id, time.Hour) == nil {
+						l.cl[k].RequeuedMessage()
+						l.op(fmt.Sprintf("req %s %s %d %s 1", t.name, c.name, k, vfE5IDNum(id)), "ok")
+					}
+				case 1: // immediate requeue: back in the queue with attempts kept
+					if c.RequeueMessage(k, id, 0) == nil {
+						l.cl[k].RequeuedMessage()
+						l.op(fmt.Sprintf("req %s %s %d %s 0", t.name, c.name, k, vfE5IDNum(id)), "ok")
+					}
+				}
+			}
+			if l.r.Intn(2) == 0 && !c.ephemeral { // the consumer goes away, its messages stay in flight
+				c.RemoveClient(k)
+				delete(l.where, k)
+				l.op(fmt.Sprintf("unsub %s %s %d", t.name, c.name, k), "ok")
+			}
+		}
+	}
+	l.settle()
+	l.out.Case("settle", "ok")
+	l.check()
+}
+
+// afterRestart redelivers what came back (two restarts out of three): every frame's attempts,
+// timestamp and body are compared with the model; the messages are then finished, requeued or left
+// in flight for the next shutdown.
+func (l *vfE5Life) afterRestart() {
+	if l.r.Intn(3) == 0 {
+		return
+	}
+	for _, t := range l.topics() {
+		for _, c := range l.chans(t) {
+			if c.IsPaused() || c.Depth() == 0 {
+				continue
+			}
+			l.doSub(t, c)
+			k := l.nextK
+			for l.deliver(t, c, k) {
+			}
+			ids, owners := l.inflightOf(c)
+			for i, id := range ids {
+				if owners[i] != k {
+					continue
+				}
+				switch l.r.Intn(3) {
+				case 0:
+					if c.FinishMessage(k, id) == nil {
+						l.cl[k].FinishedMessage()
+						l.op(fmt.Sprintf("fin %s %s %d %s", t.name, c.name, k, vfE5IDNum(id)), "ok")
+					}
+				case 1:
+					if c.RequeueMessage(k, id, 0) == nil {
+						l.cl[k].RequeuedMessage()
+						l.op(fmt.Sprintf("req %s %s %d %s 0", t.name, c.name, k, vfE5IDNum(id)), "ok")
+					}
+				}
+			}
+		}
+	}
+	l.settle()
+	l.out.Case("settle", "ok")
+	l.check()
+}
+
 func TestVerifE5RestartCorr(t *testing.T) {
 	out := vfOpen("restart")
 	defer out.Close()
@@ -164,6 +250,7 @@ func TestVerifE5RestartCorr(t *testing.T) {
 			if cy == cycles {
 				break
 			}
+			l.beforeShutdown()
 			unp := l.backlogBeforeExit()
 			l.closeAll()
 			vfE5UnpauseOnDisk(t, dir, unp)
@@ -183,6 +270,7 @@ func TestVerifE5RestartCorr(t *testing.T) {
 			l.settle()
 			l.out.Case("settle", "ok")
 			l.check()
+			l.afterRestart()
 		}
 		l.drain()
 		l.settle()
